@@ -204,6 +204,21 @@ class Env:
         from stabilize.stages.builder import StageDefinitionBuilder, get_default_factory
         fac = get_default_factory()
         for st in self.spec["stages"]:
+            if st.get("built"):
+                # a stage whose tasks are built by its StageDefinitionBuilder at start time (like the built-in wait stage)
+                def mk_built(st=st):
+                    class BuiltBuilder(StageDefinitionBuilder):
+                        @property
+                        def type(self):
+                            return "vb_" + st["ref"]
+
+                        def build_tasks(self, stage):
+                            n = len(st.get("tasks", []))
+                            return [TaskExecution.create(name=f"t{i}", implementing_class=f"vt_{st['ref']}_{i}",
+                                                         stage_start=(i == 0), stage_end=(i == n - 1)) for i in range(n)]
+                    return BuiltBuilder()
+                fac.register(mk_built())
+        for st in self.spec["stages"]:
             kids = {k: st.get(k, []) for k in SYN_KINDS}
             if not any(kids.values()):
                 continue
@@ -365,7 +380,7 @@ class Env:
             if st.get("enabled") is not None:
                 ctx["stageEnabled"] = st["enabled"]
             s = StageExecution(
-                ref_id=st["ref"], type=("vs_" + st["ref"] if any(st.get(k) for k in SYN_KINDS) else "verif"), name=st["ref"], context=ctx,
+                ref_id=st["ref"], type=("vb_" + st["ref"] if st.get("built") else "vs_" + st["ref"] if any(st.get(k) for k in SYN_KINDS) else "verif"), name=st["ref"], context=ctx,
                 requisite_stage_ref_ids=set(st.get("reqs", [])),
                 join_type=JoinType[st.get("join", "AND")], join_threshold=st.get("threshold", 0),
                 split_type=SplitType[st.get("split", "AND")], split_conditions=dict(st.get("conds", {})),
@@ -375,7 +390,7 @@ class Env:
                 start_time_expiry=(1 if st.get("expired") else None),
                 tasks=[TaskExecution.create(name=f"t{i}", implementing_class=f"vt_{st['ref']}_{i}",
                                             stage_start=(i == 0), stage_end=(i == len(st["tasks"]) - 1))
-                       for i in range(len(st.get("tasks", [])))],
+                       for i in range(0 if st.get("built") else len(st.get("tasks", [])))],
             )
             stages.append(s)
         wf = Workflow.create(application="verif", name="verif", stages=stages)
